@@ -198,6 +198,11 @@ def _worker(args):
                         r['nunknown'] += 1
                         if len(r['fails']) < MAX_FAILS_PER_SHARD:
                             r['fails'].append(fc)
+                if r['nunknown'] >= 4 * MAX_FAILS_PER_SHARD and time.time() - t0 > 120:
+                    # this shard has long established a violation and the tree is slow on it: hand the result back now
+                    # (the run is reported as not exhaustive)
+                    r['capped'] = 'shard left after %d unexplained failing states and %.0f s' % (r['nunknown'], time.time() - t0)
+                    break
     except Exception as e:
         r['harness_error'] = f'{type(e).__name__}: {e}\n{traceback.format_exc()[-2000:]}'
     r['distinct'] += len(seen)
@@ -228,6 +233,7 @@ def explore(prop, tier, seed, jobs):
     else:
         pool = mp.get_context('fork').Pool(jobs, initializer=_worker_init)
         results = pool.imap_unordered(_worker, tasks, chunksize=1)
+    t_start = time.time()
     history = {}     # worker pid -> shards it has finished, in order (each worker runs its shards sequentially)
     try:
         for r in results:
@@ -251,6 +257,16 @@ def explore(prop, tier, seed, jobs):
             agg['shard_wall_max'] = max(agg['shard_wall_max'], r['wall'])
             if r['harness_error']:
                 agg['harness_errors'].append(r['harness_error'])
+            if r.get('capped'):
+                agg['stopped_early'] = True
+            if agg['nunknown'] >= int(os.environ.get('VERIF_STOP_AFTER_UNKNOWN', '300')) or \
+                    (agg['nunknown'] > 0 and time.time() - t_start > float(os.environ.get('VERIF_STOP_AFTER_S', '600'))):
+                # the verdict is already a violation: do not spend the rest of the budget on a tree that fails (and may
+                # be slow) everywhere; the evidence of such a run says exhaustive: false
+                agg['stopped_early'] = True
+                if pool is not None:
+                    pool.terminate()
+                break
             if os.environ.get('VERIF_FAIL_FAST') and agg['nunknown'] > 0:
                 # mutation-analysis mode only (tools/mutation_run.py): stop at the first unexplained failure
                 agg['stopped_early'] = True
